@@ -572,6 +572,6 @@ func main() {
 			"reference codec harness/ref written from RFC 6455 §5.2 is correct",
 			"the streaming decoder is observed through wsutil.Reader{SkipHeaderCheck:true}.NextFrame",
 		},
-		Subs: []mon.Sub{subEncodeGrid(), subEncodeRandom(), subBytesPrefix(), subBytesRandom(), subFrames(), subStreamSequences(), subSourceKinds(), subDestKinds(), subHugeAnnounced()},
+		Subs: []mon.Sub{subEncodeGrid(), subEncodeRandom(), subBytesPrefix(), subBytesRandom(), subFrames(), subStreamSequences(), subSourceKinds(), subDestKinds(), subHugeAnnounced(), subPrecompiled()},
 	})
 }
